@@ -4,7 +4,9 @@ From Coq Require Import List NArith String Bool.
 From Model Require Import Base Names Flt F32 Matches Detect.
 From Proofs Require Import DetectInv DetectChaos FloatLaws F32Facts.
 From Model Require Import F32.
-From Proofs Require Import F32Laws DetectUtf8.
+From Proofs Require Import F32Laws DetectUtf8 MdFacts.
+From Gen Require Import Tables.
+From Model Require Import Md Md32.
 Import ListNotations.
 Open Scope N_scope.
 
@@ -80,3 +82,55 @@ Theorem C04_valid_utf8_yields_match :
     valid_utf8 FO R b -> from_bytes FO R b cfg = Ok r -> r <> [].
 Proof. exact valid_utf8_yields_match. Qed.
 Print Assumptions C04_valid_utf8_yields_match.
+
+(* ---- the mess detector itself (Model/Md.v: md.rs + plugins.rs), no longer only an oracle ---- *)
+(* MessOK proved of the model: on binary32, for EVERY behaviour of the two per-character oracles (ICU flag
+   word, accent removal), every threshold and every text of fewer than 2^97 - 1 characters, mess_ratio is
+   neither NaN nor negative: every division is by a counter shown to be >= 1 by the detector invariants *)
+Theorem C04_mess_never_nan_or_negative :
+  forall (O : md_oracles) t thr, len t + 1 < BIG -> good F32ops (mess_ratio F32ops md_consts32 O t thr).
+Proof. exact mess_ratio_good. Qed.
+Print Assumptions C04_mess_never_nan_or_negative.
+
+(* hence the threshold theorem with the mess contract discharged: the mess oracle is the model on every text
+   that can exist (the second hypothesis speaks about texts of at least 2^97 - 1 characters only) *)
+Theorem C04_threshold_mess_modelled :
+  forall (R : oracles F32ops) (O : md_oracles),
+    (forall t thr, len t + 1 < BIG -> mess F32ops R t thr = mess_ratio F32ops md_consts32 O t thr) ->
+    (forall t thr, BIG <= len t + 1 -> good F32ops (mess F32ops R t thr)) ->
+    DecodeLen F32ops R ->
+  forall b cfg r, b <> [] -> len b < 2 ^ 64 -> fisnan F32ops (threshold F32ops cfg) = false ->
+    from_bytes F32ops R b cfg = Ok r ->
+    exists inc exc, shape (chaos_ok F32ops (make_ctx F32ops R b cfg inc exc)) (chaos_fb F32ops (make_ctx F32ops R b cfg inc exc)) r.
+Proof.
+  intros R O H1 H2. apply C04_threshold_binary32.
+  intros t thr. destruct (N.lt_ge_cases (len t + 1) BIG) as [Hl|Hl].
+  - rewrite H1 by exact Hl. apply mess_ratio_good. exact Hl.
+  - apply H2. exact Hl.
+Qed.
+Print Assumptions C04_threshold_mess_modelled.
+
+(* the shape Model/Md.v was written for, regenerated from md.rs / plugins.rs / structs.rs on every run:
+   detector order, checkpoint periods, default threshold, every numeric literal of every plugin, flag bits *)
+Theorem C04_md_shape_pinned :
+  MD_DETECTORS = ["TooManySymbolOrPunctuationPlugin"; "TooManyAccentuatedPlugin"; "UnprintablePlugin"; "SuspiciousRangePlugin";
+                  "SuspiciousDuplicateAccentPlugin"; "SuperWeirdWordPlugin"; "CjkInvalidStopPlugin"; "ArchaicUpperLowerPlugin"]%string
+  /\ MD_PERIODS = [510; 32; 511; 1023; 64; 128]
+  /\ MD_DEFAULT_THRESHOLD = "0.2"%string
+  /\ MD_LITERALS = [
+       ("TooManySymbolOrPunctuationPlugin", ["1"; "1"; "2"; "0"; "0.0"; "0.3"; "0.0"]);
+       ("TooManyAccentuatedPlugin", ["1"; "1"; "8"; "0.35"; "0.0"]);
+       ("UnprintablePlugin", ["1"; "1"; "0"; "0.0"; "8.0"]);
+       ("SuspiciousDuplicateAccentPlugin", ["1"; "1"; "1"; "0"; "0.0"; "2.0"]);
+       ("SuspiciousRangePlugin", ["1"; "1"; "0"; "2.0"; "0.1"; "0.0"]);
+       ("SuperWeirdWordPlugin", ["1"; "1"; "4"; "0.34"; "1"; "24"; "0"; "0.3"; "1"; "1"; "0"; "10"; "0"; "0.0"]);
+       ("CjkInvalidStopPlugin", ["1"; "1"; "16"; "0.0"]);
+       ("ArchaicUpperLowerPlugin", ["0"; "64"; "0"; "0"; "1"; "2"; "1"; "1"; "0"; "0.0"])]%string
+  /\ MD_FLAGS = [("WHITESPACE", WHITESPACE); ("UNPRINTABLE", UNPRINTABLE); ("SYMBOL", SYMBOL); ("EMOTICON", EMOTICON);
+                 ("COMMON_SAFE", COMMON_SAFE); ("WEIRD_SAFE", WEIRD_SAFE); ("PUNCTUATION", PUNCTUATION); ("SEPARATOR", SEPARATOR);
+                 ("ASCII", ASCII_F); ("ASCII_ALPHABETIC", ASCII_ALPHABETIC); ("ASCII_GRAPHIC", ASCII_GRAPHIC); ("ASCII_DIGIT", ASCII_DIGIT);
+                 ("LATIN", LATIN); ("ALPHABETIC", ALPHABETIC); ("ACCENTUATED", ACCENTUATED); ("CJK", CJK);
+                 ("HANGUL", HANGUL); ("KATAKANA", KATAKANA); ("HIRAGANA", HIRAGANA); ("THAI", THAI);
+                 ("CASE_VARIABLE", CASE_VARIABLE); ("LOWERCASE", LOWERCASE); ("UPPERCASE", UPPERCASE); ("NUMERIC", NUMERIC)]%string.
+Proof. repeat split; reflexivity. Qed.
+Print Assumptions C04_md_shape_pinned.
